@@ -247,6 +247,50 @@ func registerModels(e *Engine) {
 	ic["github.com/llir/llvm/ir/constant.decimalEntropy"] = func(e *Engine, st *State, fr *Frame, in ssa.CallInstruction, a []Val) Val {
 		return ConstF64(1.0)
 	}
+	// strconv.ParseUint on long symbolic strings: the real code classifies each
+	// byte with a three-way switch (2^n paths for n hex digits); for strings of
+	// more than 6 bytes in base 10/16 it is replaced by a model that forks only
+	// on valid / invalid / out of range.  Short strings run the real SSA.
+	ic["strconv.ParseUint"] = func(e *Engine, st *State, fr *Frame, in ssa.CallInstruction, a []Val) Val {
+		s := a[0].(StrVal)
+		base, okb := concInt(a[1])
+		bits, okz := concInt(a[2])
+		symbolic := false
+		for _, b := range s.b {
+			if !b.IsConst() {
+				symbolic = true
+			}
+		}
+		if !symbolic || len(s.b) <= 6 || !okb || !okz || (base != 10 && base != 16) {
+			return callReal // run the real function
+		}
+		if bits == 0 {
+			bits = 64
+		}
+		e.models["strconv.ParseUint (model for symbolic strings longer than 6 bytes, base 10/16)"]++
+		errRes := func(kind string) Val {
+			return TupleVal{[]Val{ConstBV(64, 0), opaqueErrNamed(st, "strconv.ParseUint: "+kind)}}
+		}
+		valid := True
+		const W = 160
+		sum := ConstBVBig(W, big.NewInt(0))
+		for _, ch := range s.b {
+			dv, ok := digitVal(ch, base)
+			valid = And(valid, ok)
+			sum = BvBin("bvadd", BvBin("bvmul", sum, ConstBVBig(W, big.NewInt(int64(base)))), ZExt(dv, W))
+		}
+		if len(s.b) > 36 {
+			abort("cut", "strconv.ParseUint model: more than 36 digits")
+		}
+		if !e.decide(st, valid) {
+			return errRes("invalid syntax")
+		}
+		lim := new(big.Int).Lsh(big.NewInt(1), uint(bits))
+		if !e.decide(st, BvCmp("bvult", sum, ConstBVBig(W, lim))) {
+			return TupleVal{[]Val{ConstBV(64, mask(bits)), opaqueErrNamed(st, "strconv.ParseUint: value out of range")}}
+		}
+		return TupleVal{[]Val{Extract(63, 0, sum), IfaceVal{}}}
+	}
 	registerBig(e)
 }
 
